@@ -313,7 +313,7 @@ pub async fn run(seed: u64, sched: Rc<Sched>, keep_log: bool) -> (CaseResult, Ve
     let mut d = Director::new(seed, sched.clone(), clock.clone());
     d.tick_pct = 4;
     d.tick_sizes = vec![1_000_000, 20_000_000];
-    d.max_steps = 400_000;
+    d.max_steps = if deep { 1_500_000 } else { 400_000 };
     let p_persist = if deep { rng.gen_range(0..2u32) } else { rng.gen_range(5..40u32) };
     let p_write_error = if !deep && rng.gen_range(0..100) < 25 { 1u32 } else { 0 };
     let p_jump = if !deep && rng.gen_range(0..100) < 40 { rng.gen_range(1..4u32) } else { 0 };
@@ -460,7 +460,12 @@ pub async fn run(seed: u64, sched: Rc<Sched>, keep_log: bool) -> (CaseResult, Ve
         }
     }
     let mut harness_error = None;
-    if !matches!(end, DriveEnd::Done) {
+    if matches!(end, DriveEnd::StepLimit) {
+        // The step budget ran out while submitters were still at work (deep queues with very
+        // slow persistence and busy readers): the run is cut short, everything observed so far
+        // still counts, the final comparison below only covers what was submitted.
+        hist.probe("step_budget_exhausted");
+    } else if !matches!(end, DriveEnd::Done) {
         // Submitters give up after their timeout, so they always finish; anything else is ours.
         harness_error = Some("store scenario did not finish".to_string());
     }
